@@ -170,7 +170,7 @@ Proof. unfold Post.post_handler. intros -> ->. now rewrite N.eqb_refl. Qed.
 Theorem handler_propose st sid body e :
   post_handler st sid body = PPropose e <->
   exists d c, json_decode (stake body_limit body) = Some (d, c) /\ last_post st sid <> c /\
-              st_leader st = true /\ e = mkEntry EIrc 0 sid c (cut_newline d) 0.
+              st_leader st = true /\ e = mkEntry EIrc 0 sid c (cut_line d) 0.
 Proof.
   unfold Post.post_handler. destruct (json_decode (stake body_limit body)) as [[d c]|].
   - destruct (N.eqb_spec (last_post st sid) c).
@@ -181,11 +181,11 @@ Proof.
   - split; [discriminate|]. intros (d & c & H & _). discriminate.
 Qed.
 
-Lemma cut_newline_clean d : contains_char "010"%char (cut_newline d) = false.
+Lemma cut_line_clean d c : is_line_end c = true -> contains_char c (cut_line d) = false.
 Proof.
-  induction d as [|c r IH]; cbn [cut_newline]; [reflexivity|].
-  destruct (Ascii.eqb c "010"%char) eqn:E; cbn [contains_char]; [reflexivity|].
-  rewrite Ascii.eqb_sym, E, IH. reflexivity.
+  intros Hc. induction d as [|x r IH]; cbn [cut_line]; [reflexivity|].
+  destruct (is_line_end x) eqn:E; cbn [contains_char]; [reflexivity|].
+  rewrite IH, orb_false_r. destruct (Ascii.eqb_spec c x); [subst; congruence|reflexivity].
 Qed.
 
 (* ---- histories ---------------------------------------------------------------------------------- *)
@@ -274,7 +274,7 @@ Proof.
     rewrite Hlead in Hh. discriminate.
   - unfold Post.post_handler in Hh. rewrite Hj, Hlead in Hh. destruct (N.eqb _ c); discriminate.
   - apply handler_propose in Hh. destruct Hh as (d' & c' & Hj' & _ & _ & ->). rewrite Hj in Hj'. inversion Hj'; subst.
-    cbn [s_node]. exact (apply_establishes_inv o (s_node s) (with_id (mkEntry EIrc 0 sid c' (cut_newline d') 0) (next_index s)) eq_refl).
+    cbn [s_node]. exact (apply_establishes_inv o (s_node s) (with_id (mkEntry EIrc 0 sid c' (cut_line d') 0) (next_index s)) eq_refl).
 Qed.
 
 (* ... and as a message of death (the first copy panicked and the log entry was rewritten) *)
